@@ -1,7 +1,9 @@
 (* C02/Model.v — connection lifecycle of cflib.crazyflie.Crazyflie (+ SyncCrazyflie's connect/disconnect
    events) as a state machine.  One event = one entry into a transition function of the library, run
    atomically:
-     EOpen ok      Crazyflie.open_link (ok = a driver was found and connect() did not raise)
+     EOpenBegin    Crazyflie.open_link is entered (connection_requested, state INITIALIZED)
+     EOpenEnd ok   get_link_driver returns inside open_link (ok = a driver was found and connect() did not
+                   raise); between the two the driver's connect() runs and may already report a link error
      EPacket       the dispatcher thread delivers a received packet to packet_received
                    (_check_for_initial_packet_cb)
      ETocs         the packet completing the parameter TOC is processed (_param_toc_updated_cb)
@@ -34,44 +36,56 @@ Record state := mk {
   link : bool;          (* Crazyflie.link is not None *)
   initcb : bool;        (* _check_for_initial_packet_cb is registered on packet_received *)
   stg : stage;
+  opening : bool;       (* open_link has been entered and get_link_driver has not returned yet *)
 }.
 
-Definition init : state := mk DISCONNECTED false true SNone.
+Definition init : state := mk DISCONNECTED false true SNone false.
 
-Inductive event := EOpen (ok : bool) | EPacket | ETocs | EParams | ELinkErr | EClose.
+Inductive event := EOpenBegin | EOpenEnd (ok : bool) | EPacket | ETocs | EParams | ELinkErr | EClose.
 
 (* None: outside the modelled usage (open_link while a link is open: the code leaks the old link and
    restarts the setup chain on top of the old one — not modelled) *)
 Definition step (s : state) (e : event) : option (state * list cb) :=
   match e with
-  | EOpen ok =>
-      if link s then None
-      else if ok then Some (mk INITIALIZED true true SNone, [Requested])
-      else Some (mk INITIALIZED false (initcb s) (stg s), [Requested; Failed])
+  | EOpenBegin =>
+      if link s || opening s then None
+      else Some (mk INITIALIZED false (initcb s) (stg s) true, [Requested])
+  | EOpenEnd ok =>
+      if negb (opening s) then None
+      else match st s, ok with
+           | INITIALIZED, true => Some (mk INITIALIZED true true SNone false, [])
+           | INITIALIZED, false => Some (mk INITIALIZED false (initcb s) (stg s) false, [Failed])
+           (* the driver reported an error during connect(): the attempt has already failed; the dead
+              link object that open_link installs delivers nothing and is abstracted as "no link" *)
+           | _, true => Some (mk (st s) false true SNone false, [])
+           | _, false => None     (* a driver that reports a link error during connect() AND fails to connect: not modelled *)
+           end
   | EPacket =>
       (* packets are only received while the link exists *)
-      if link s && initcb s then Some (mk CONNECTED true false (stg s), [Established])
+      if link s && initcb s then Some (mk CONNECTED true false (stg s) (opening s), [Established])
       else Some (s, [])
   | ETocs =>
       match link s, st s, stg s with
-      | true, CONNECTED, SNone => Some (mk CONNECTED true (initcb s) STocs, [Connected])
+      | true, CONNECTED, SNone => Some (mk CONNECTED true (initcb s) STocs (opening s), [Connected])
       | _, _, _ => Some (s, [])
       end
   | EParams =>
       match link s, st s, stg s with
-      | true, CONNECTED, STocs => Some (mk CONNECTED true (initcb s) SParams, [Fully])
+      | true, CONNECTED, STocs => Some (mk CONNECTED true (initcb s) SParams (opening s), [Fully])
       | _, _, _ => Some (s, [])
       end
   | ELinkErr =>
       (* an error is reported by a driver: after an open_link that found no driver (state INITIALIZED, no
-         link) there is none — outside the modelled environment *)
-      match st s, link s with
+         link, not opening) there is none — outside the modelled environment *)
+      match st s, link s || opening s with
       | INITIALIZED, false => None
-      | INITIALIZED, true => Some (mk DISCONNECTED false (initcb s) (stg s), [Failed])
-      | CONNECTED, _ => Some (mk DISCONNECTED false (initcb s) (stg s), [Disconnected; Lost])
-      | DISCONNECTED, _ => Some (mk DISCONNECTED false (initcb s) (stg s), [DiscLinkErr])
+      | INITIALIZED, true => Some (mk DISCONNECTED false (initcb s) (stg s) (opening s), [Failed])
+      | CONNECTED, _ => Some (mk DISCONNECTED false (initcb s) (stg s) (opening s), [Disconnected; Lost])
+      | DISCONNECTED, _ => Some (mk DISCONNECTED false (initcb s) (stg s) (opening s), [DiscLinkErr])
       end
-  | EClose => Some (mk DISCONNECTED false (initcb s) (stg s), [Disconnected])
+  | EClose =>
+      if opening s then None     (* close_link from another thread while open_link is inside connect(): not modelled *)
+      else Some (mk DISCONNECTED false (initcb s) (stg s) false, [Disconnected])
   end.
 
 Fixpoint run (s : state) (evs : list event) : option (state * list cb) :=
